@@ -339,6 +339,10 @@ package index
 //@   requires snapshot != nil
 //@   requires [writer-has-its-segment-plugin] s != nil && s.segPlugin != nil
 //@   ensures [equivalent-snapshot-durable] (result0 && result1 == nil) ==> snpOnDisk[snapshot.epoch]
+// the segments left out of the equivalent snapshot are exactly those collected for the in-memory merge:
+// an id is marked as merged only if it is the id of a segment at one of the collected positions
+//@   loop 2
+//@     invariant [only-the-collected-segments-are-marked-merged] mergedSegmentIDs != nil && (forall id uint64 :: has(mergedSegmentIDs, id) ==> (exists m int :: 0 <= m && m <= rangeindex && id == snapshot.segment[sbsIndexes[m]].id))
 
 // asyncFailures counts background operations that failed for a reason other than shutdown;
 // asyncErrorsFired counts calls of fireAsyncError. Every loop iteration keeps them level (C14).
